@@ -10,13 +10,14 @@ git stash -q; build; timeout 300 ./demo/demo_chk >/tmp/seed_$p.without 2>&1; rc_
 cmake --build _build 2>&1 | tail -1
 ctest --test-dir _build -j8 --timeout 900 2>&1 | grep -E "tests passed|FAILED|Failed" > /tmp/seed_$p.ctest
 echo "demo with change rc=$rc_with, without rc=$rc_without"; cat /tmp/seed_$p.ctest
-mkdir -p /verif/seeded/$p
-git diff -- src include > /verif/seeded/$p/patch.diff
-cp demo/demo.cc /verif/seeded/$p/demo.cc
+out=${SEED_DIR:-$p}
+mkdir -p /verif/seeded/$out
+git diff -- src include > /verif/seeded/$out/patch.diff
+cp demo/demo.cc /verif/seeded/$out/demo.cc
 python3 - <<PY
 import json
 json.dump({"property":"$p","demo_rc_with_change":$rc_with,"demo_rc_without_change":$rc_without,
  "demo_build":"g++ -std=c++17 $flags -DONLY_C_LOCALE=1 -I include -I subprojects/hinnant-date/include demo/demo.cc src/common/*.cc src/server/*.cc src/client/*.cc -pthread",
  "ctest_with_change":open("/tmp/seed_$p.ctest").read().strip(),
- "demo_output_with_change_tail":open("/tmp/seed_$p.with",errors="replace").read()[-600:]},open("/verif/seeded/$p/confirm.json","w"),indent=1)
+ "demo_output_with_change_tail":open("/tmp/seed_$p.with",errors="replace").read()[-600:]},open("/verif/seeded/$out/confirm.json","w"),indent=1)
 PY
